@@ -18,15 +18,18 @@ RULE = ("Each (workload, cluster state) pair is first run without a stop to coun
         "stride of k plus both ends (quick). Workloads: plain / idempotent / transactional producer "
         "(mid-transaction), group consumer (second member joining mid-run), group-less consumer; cluster "
         "states: healthy, one broker refusing or black-holing connections, coordinator unreachable, "
-        "coordinator and leaders failing over. Non-trivial = stop issued while >=1 request was in flight, or a "
+        "coordinator and leaders failing over, coordinator refusing commits with REBALANCE_IN_PROGRESS. Non-trivial = stop issued while >=1 request was in flight, or a "
         "rebalance was in progress, or a broker was unreachable. Distinct = distinct (workload, state, k).")
 ASSUMPTIONS = ["simulated cluster (vlib/simkafka), virtual-time loop with exact deadlock detection",
                "bound for stop(): 4*request_timeout + session_timeout + rebalance_timeout + 20*retry_backoff + 2 s (virtual)",
                "static members are not used; 'left group' is read from the simulated coordinator's member table"]
 
 _SHIM = [False]
-WORKLOADS = ["producer_plain", "producer_idempotent", "producer_txn", "consumer_group", "consumer_groupless"]
-STATES = ["healthy", "node_refusing", "node_blackholed", "coordinator_refusing", "coordinator_blackholed", "failover"]
+WORKLOADS = ["producer_plain", "producer_idempotent", "producer_txn", "consumer_group", "consumer_groupless",
+             # the application drops its subscription/assignment right before stop() (a common shutdown sequence)
+             "consumer_group_unsub", "consumer_groupless_unsub"]
+STATES = ["healthy", "node_refusing", "node_blackholed", "coordinator_refusing", "coordinator_blackholed", "failover",
+          "commits_refused"]
 CFG = {"request_timeout_ms": 400, "retry_backoff_ms": 20, "session_timeout_ms": 1000, "rebalance_timeout_ms": 800,
        "heartbeat_interval_ms": 100}
 RUN_FOR = 1.2
@@ -69,6 +72,10 @@ async def _scenario(workload, state, stop_at, obs, loop, net):
     elif state == "failover":
         env += [{"at": t_ev, "ev": "move_group_coord", "to": 0, "keep_state": False}, {"at": t_ev, "ev": "move_txn_coord", "to": 0},
                 {"at": t_ev + 0.05, "ev": "move_leader", "topic": "t0", "partition": 1, "to": 0}]
+    if state == "commits_refused":
+        # the coordinator answers every OffsetCommit but the first with REBALANCE_IN_PROGRESS (the member's
+        # generation stays valid, so it is still a member that has to leave on stop())
+        c.set_faults([{"sel": "offset_commit", "k": k, "act": "error", "code": 27} for k in range(1, 80)])
     if state in ("node_refusing", "node_blackholed"):
         # the coordinators live on the healthy node in these two states
         c.txn_coord_node = 0
@@ -111,7 +118,7 @@ async def _scenario(workload, state, stop_at, obs, loop, net):
         app_tasks.append(asyncio.ensure_future(app()))
     else:
         kw = dict(common, auto_offset_reset="earliest", fetch_max_wait_ms=50)
-        if workload == "consumer_group":
+        if workload.startswith("consumer_group") and not workload.startswith("consumer_groupless"):
             kw.update(group_id="g", session_timeout_ms=CFG["session_timeout_ms"], heartbeat_interval_ms=CFG["heartbeat_interval_ms"],
                       rebalance_timeout_ms=CFG["rebalance_timeout_ms"], auto_commit_interval_ms=100)
             client = AIOKafkaConsumer("t0", **kw)
@@ -127,7 +134,7 @@ async def _scenario(workload, state, stop_at, obs, loop, net):
             except (KafkaError, ConsumerStoppedError, asyncio.CancelledError, Exception):
                 return
         app_tasks.append(asyncio.ensure_future(app()))
-        if workload == "consumer_group":
+        if workload.startswith("consumer_group") and not workload.startswith("consumer_groupless"):
             async def second():
                 CLIENT_TAG.set("other")
                 await asyncio.sleep(0.25)
@@ -151,6 +158,8 @@ async def _scenario(workload, state, stop_at, obs, loop, net):
                             "group_state": (c.groups.groups["g"].state if "g" in c.groups.groups else None),
                             "nodes_down": [n.node_id for n in c.nodes.values() if not n.up]}
         try:
+            if workload.endswith("_unsub"):
+                client.unsubscribe()
             await client.stop()
             obs["stop_return"] = loop._vtime
         except asyncio.CancelledError:
@@ -303,7 +312,7 @@ def execute(case):
             want = "ProducerClosed" if w.startswith("producer") else "ConsumerStoppedError"
             if res != want:
                 out.fail("closed_api", "%s:%s:%s" % (site, name, res), dict(det, result=res, want=want))
-        if w == "consumer_group" and obs.get("coordinator_reachable") and "main" in obs.get("members_at_return", []):
+        if w in ("consumer_group", "consumer_group_unsub") and obs.get("coordinator_reachable") and "main" in obs.get("members_at_return", []):
             out.fail("left_group", site + ":still_a_member", dict(det, members=obs["members_at_return"]))
     out.nontrivial = bool(sc.get("inflight") or sc.get("nodes_down") or sc.get("group_state") in ("PreparingRebalance", "CompletingRebalance"))
     out.label("w_" + w, "s_" + s)
@@ -333,8 +342,10 @@ def cases(shard, nshards, stride):
     i = 0
     for w in WORKLOADS:
         for s in STATES:
-            if w in ("producer_plain", "consumer_groupless") and s.startswith("coordinator"):
+            if w in ("producer_plain", "consumer_groupless", "consumer_groupless_unsub") and s.startswith("coordinator"):
                 continue          # no coordinator involved
+            if s == "commits_refused" and w not in ("consumer_group", "consumer_group_unsub"):
+                continue
             if i % nshards != shard and stride is None:
                 pass
             lo, hi = total_events(w, s)
@@ -349,5 +360,5 @@ def cases(shard, nshards, stride):
 
 def campaigns(tier):
     th = tier == "thorough"
-    return [Campaign("stop_points", "enum", execute=execute, cases=lambda sh, n: cases(sh, n, None if th else 9),
+    return [Campaign("stop_points", "enum", execute=execute, cases=lambda sh, n: cases(sh, n, None if th else 3),
                      exhaustive=th, setup=setup)]
